@@ -118,12 +118,21 @@ def prop_status(pid, thorough=False):
     names = re.findall(r"^(?:Theorem|Corollary)\s+(\w+)", text, re.M)
     with Lock("coqbuild", shared=True):
         rc, out = sh("mkdir -p %s && coqc -Q . GS -o %s props/%s.v" % (os.path.join(BUILD, "propsout"), os.path.join(BUILD, "propsout", "%s.vo" % pid), pid), 1200, cwd=COQ)
+        # Print Assumptions for EVERY theorem of the property file (the file itself prints it for a selection only)
+        pa_dir = os.path.join(BUILD, "pa")
+        os.makedirs(pa_dir, exist_ok=True)
+        with open(os.path.join(pa_dir, "PA_%s.v" % pid), "w") as f:
+            f.write("From GS Require Import props.%s.\n" % pid)
+            for nm in names:
+                f.write("Print Assumptions %s.\n" % nm)
+        rc2, out2 = sh("coqc -Q %s GS %s" % (COQ, os.path.join(pa_dir, "PA_%s.v" % pid)), 1200, cwd=pa_dir) if rc == 0 else (1, "")
     axioms = {}
-    # Print Assumptions output: either "Closed under the global context" or "Axioms:\n name : type ..."
-    blocks = re.split(r"(?=Closed under the global context|Axioms:)", out)
+    blocks = re.split(r"(?=Closed under the global context|Axioms:)", out2 if rc == 0 else "")
     pa = [b for b in blocks if b.startswith("Closed") or b.startswith("Axioms:")]
-    printed = re.findall(r"^Print Assumptions\s+(\w+)", text, re.M)
-    for name, blk in zip(printed, pa):
+    if rc == 0 and (rc2 != 0 or len(pa) != len(names)):
+        rc = 1
+        out += "\nPrint Assumptions pass failed:\n" + out2[-1500:]
+    for name, blk in zip(names, pa):
         if blk.startswith("Closed"):
             axioms[name] = []
         else:
